@@ -26,7 +26,7 @@ def _links(sites):
     return {frozenset(p) for p in zip(sites[:-1], sites[1:])}
 
 
-def h_disjoint(ctx, shape, reqs, groups, include_first=False, include_all=False):
+def h_disjoint(ctx, shape, reqs, groups, include_first=False, include_all=False, diversity_choice=False):
     from gnpy.core.exceptions import DisjunctionError
     from gnpy.topology.request import compute_path_dsjctn, correct_json_route_list, Disjunction, deduplicate_disjunctions
     m = build_mesh(ctx, shape, symmetric_lengths=True)
@@ -50,7 +50,9 @@ def h_disjoint(ctx, shape, reqs, groups, include_first=False, include_all=False)
             nodes, loose = ctx.choice(f'include of request {rid}', opts)
         inc[rid] = (list(nodes), list(loose))
         rqs.append(request(rid, s, d, nodes, loose))
-    dis = [Disjunction(disjunction_id=f'g{j}', relaxable=False, link_diverse=True, node_diverse=True, disjunctions_req=list(g))
+    # kind of diversity asked for by each group: link and node (the usual 'node link'), link only, node only
+    div = ctx.choice('diversity', [(True, True), (True, False), (False, True)]) if diversity_choice else (True, True)
+    dis = [Disjunction(disjunction_id=f'g{j}', relaxable=False, link_diverse=div[0], node_diverse=div[1], disjunctions_req=list(g))
            for j, g in enumerate(groups)]
     correct_json_route_list(m.graph, rqs)
     dis = deduplicate_disjunctions(dis)          # as planning() does before computing the paths
@@ -87,7 +89,7 @@ def h_disjoint(ctx, shape, reqs, groups, include_first=False, include_all=False)
             if all(not (_links(sel[a]) & _links(sel[b])) for g in groups for a, b in itertools.combinations(g, 2)):
                 return True
         return False
-    info = dict(shape=shape, requests=reqs, groups=groups, include=inc)
+    info = dict(shape=shape, requests=reqs, groups=groups, include=inc, diversity=div)
     if err is not None:
         mixed = any(len(set(l)) > 1 for _, l in inc.values())
         if len(reqs) == 2 and len(groups) == 1 and not mixed:
@@ -128,6 +130,10 @@ CASES = [
     ('nested_groups:mesh4', 'mesh4', [('1', 'A', 'B'), ('2', 'A', 'B'), ('3', 'C', 'A')], [('2', '3'), ('1', '2', '3')], False),
     ('nested_groups:ring4+chord', 'ring4+chord', [('1', 'A', 'B'), ('2', 'A', 'B'), ('3', 'D', 'C')], [('1', '2', '3'), ('1', '2')], False),
     ('duplicate_group:ring4', 'ring4', [('1', 'A', 'C'), ('2', 'A', 'C')], [('1', '2'), ('2', '1')], False),
+    # three pair groups forming a cycle: the last group finds both its requests already routed by the first two
+    ('cycle_of_pairs:mesh4', 'mesh4', [('1', 'A', 'D'), ('2', 'B', 'D'), ('3', 'A', 'C')], [('1', '2'), ('2', '3'), ('1', '3')], False),
+    ('cycle_of_pairs:ring4+chord', 'ring4+chord', [('1', 'A', 'C'), ('2', 'B', 'C'), ('3', 'A', 'D')], [('1', '2'), ('2', '3'), ('1', '3')], False),
+    ('cycle_of_pairs:ring4', 'ring4', [('1', 'A', 'C'), ('2', 'B', 'C'), ('3', 'A', 'B')], [('1', '2'), ('2', '3'), ('1', '3')], False),
 ]
 
 
@@ -137,6 +143,10 @@ def jobs(tier):
         js.append(dict(name=f'H12:{name}', fn='h_disjoint', params=dict(shape=shape, reqs=reqs, groups=groups, include_first=incl),
                        witness_every=5, budget_s=200 if tier == 'quick' else 600, opts=dict(no_ties=True),
                        cost=len(SHAPES[shape][1]) ** 3))
+    for name, shape, reqs, groups in (('pair:ring4', 'ring4', [('1', 'A', 'C'), ('2', 'A', 'C')], [('1', '2')]),
+                                      ('triple:mesh4', 'mesh4', [('1', 'A', 'B'), ('2', 'A', 'B'), ('3', 'C', 'A')], [('1', '2', '3')])):
+        js.append(dict(name=f'H12:diversity_kinds:{name}', fn='h_disjoint', params=dict(shape=shape, reqs=reqs, groups=groups, diversity_choice=True),
+                       witness_every=5, budget_s=200 if tier == 'quick' else 600, opts=dict(no_ties=True), cost=len(SHAPES[shape][1]) ** 3))
     js += include_jobs(tier, 'H12')
     return js
 
